@@ -471,3 +471,60 @@ Definition prog_ok (p : prog) : bool :=
 
 Definition obs_y (r : ystate * list result) : mem * list result := (ymem (fst r), snd r).
 Definition obs_g (r : gstate * list result) : mem * list result := (gmem (fst r), snd r).
+
+(* ------------------------------------------------------------------ *)
+(** * Statement without side conditions (used by the [_refuted] theorems) and witnesses *)
+
+(** like [ordered], but a function may be declared again *)
+Fixpoint uses_defined_from (known : list N) (c : chunk) : bool :=
+  match c with
+  | [] => true
+  | i :: r =>
+      forallb (fun f => existsb (N.eqb f) known) (fnames_i i)
+      && match i with
+         | IFunc f _ => uses_defined_from (f :: known) r
+         | _ => uses_defined_from known r
+         end
+  end.
+Definition uses_defined (c : chunk) : bool := uses_defined_from [] c.
+
+(** x = x*k + c on variable 1 *)
+Definition upd (k c : Z) : stmt N := SAssign 1 (EAdd (EMul (EVar 1) (EConst k)) (EConst c)).
+
+(** an ordinary program: var v1 = 1; func f1(a) { v1 = v1*2 + 1; print v1; return v1 + a };
+    var v2 = f1(3); var p *int;  main: p = &v1; *p = *p + v2; print v1; f1(v2) *)
+Definition p_example : prog :=
+  {| decls := [IVar 1 (EConst 1%Z);
+               IFunc 1 ([upd 2 1; SPrint (EVar 1)], EAdd (EVar 1) EArg);
+               IVar 2 (ECall 1 (EConst 3%Z));
+               IPtr 101];
+     body := [SSetPtr 101 1; SStoreP 101 (EAdd (EDeref 101) (EVar 2)); SPrint (EVar 1); SExpr (ECall 1 (EVar 2))] |}.
+
+(** main-rerun: var v1 = 1; func main() { v1 = v1*2+1; print v1 } | var v2 = 5 *)
+Definition rerun_cs : list chunk :=
+  [[IVar 1 (EConst 1%Z); IFunc main_name ([upd 2 1; SPrint (EVar 1)], EConst 0%Z)];
+   [IVar 2 (EConst 5%Z)]].
+
+(** var-xdep: var v1 = 1 | var v2 = v1 + 10 | print v2 *)
+Definition p_xdep : prog :=
+  {| decls := [IVar 1 (EConst 1%Z); IVar 2 (EAdd (EVar 1) (EConst 10%Z))];
+     body := [SPrint (EVar 2)] |}.
+
+(** stale callee: var v1 = 1 | f1(a) = v1*2 | f2(a) = f1(a)+1 | f1(a) = v1*3 | print f2(0) *)
+Definition stale_cs : list chunk :=
+  [[IVar 1 (EConst 1%Z)];
+   [IFunc 1 ([], EMul (EVar 1) (EConst 2%Z))];
+   [IFunc 2 ([], EAdd (ECall 1 EArg) (EConst 1%Z))];
+   [IFunc 1 ([], EMul (EVar 1) (EConst 3%Z))];
+   [IStmt (SPrint (ECall 2 (EConst 0%Z)))]].
+
+(** redefinition seen by fresh code only: f1(a) = a+1 | print f1(1) | f1(a) = a*10 | print f1(1) *)
+Definition redef_cs : list chunk :=
+  [[IFunc 1 ([], EAdd EArg (EConst 1%Z))];
+   [IStmt (SPrint (ECall 1 (EConst 1%Z)))];
+   [IFunc 1 ([], EMul EArg (EConst 10%Z))];
+   [IStmt (SPrint (ECall 1 (EConst 1%Z)))]].
+
+(** interactive style needs declaration before use: f2 calls f1 | f1 *)
+Definition forward_cs : list chunk :=
+  [[IFunc 2 ([], ECall 1 EArg)]; [IFunc 1 ([], EArg)]].
